@@ -30,6 +30,15 @@ type smtBuilder struct {
 	consts   map[string]*Sort
 	recInst  []*Term
 	instSeen map[string]bool
+	ufmul    bool
+	memo     map[*Term]*Term
+}
+
+func (sb *smtBuilder) pr(t *Term) string {
+	if sb.ufmul {
+		return abstractMul(t, sb.memo).String()
+	}
+	return t.String()
 }
 
 func (w *World) specBySMT(name string) *SpecFunc {
@@ -203,7 +212,58 @@ func (sb *smtBuilder) useSpec(sf *SpecFunc, app *Term, depth int, bound map[stri
 	sb.scan(d.Body.subst(m), depth, bound)
 }
 
+// abstractMul replaces nonlinear products by an uninterpreted function (sound abstraction:
+// a proof that holds for every interpretation of umul holds for real multiplication).
+func abstractMul(t *Term, memo map[*Term]*Term) *Term {
+	if r, ok := memo[t]; ok {
+		return r
+	}
+	var r *Term
+	if len(t.Args) == 0 {
+		r = t
+	} else {
+		args := make([]*Term, len(t.Args))
+		ch := false
+		for i, a := range t.Args {
+			args[i] = abstractMul(a, memo)
+			if args[i] != a {
+				ch = true
+			}
+		}
+		op := t.Op
+		if op == "*" && len(args) == 2 && !isNumLit(args[0]) && !isNumLit(args[1]) {
+			op = "umul_" + strings.ToLower(t.S.String())
+			ch = true
+		}
+		if ch {
+			r = &Term{Op: op, Args: args, S: t.S, BVars: t.BVars}
+		} else {
+			r = t
+		}
+	}
+	memo[t] = r
+	return r
+}
+
+func isNumLit(t *Term) bool {
+	if len(t.Args) == 0 {
+		c := t.Op[0]
+		return c >= '0' && c <= '9'
+	}
+	if t.Op == "-" && len(t.Args) == 1 {
+		return isNumLit(t.Args[0])
+	}
+	if t.Op == "/" && len(t.Args) == 2 {
+		return isNumLit(t.Args[0]) && isNumLit(t.Args[1])
+	}
+	return false
+}
+
 func (o *Obligation) smt(w *World, extraAsserts []*Term, getValues []*Term, weaken bool) string {
+	return o.smtMode(w, extraAsserts, getValues, weaken, false)
+}
+
+func (o *Obligation) smtMode(w *World, extraAsserts []*Term, getValues []*Term, weaken bool, ufmul bool) string {
 	sb := &smtBuilder{w: w, ex: o.ex, declMap: map[string]*Decl{}, needDecl: map[string]bool{}, specUsed: map[string]*SpecDef{}, unint: map[string]string{}, consts: map[string]*Sort{}, instSeen: map[string]bool{}}
 	var decls []Decl
 	if o.ex != nil {
@@ -216,6 +276,8 @@ func (o *Obligation) smt(w *World, extraAsserts []*Term, getValues []*Term, weak
 	if depth <= 0 {
 		depth = 1
 	}
+	sb.ufmul = ufmul
+	sb.memo = map[*Term]*Term{}
 	sb.scan(o.Guard, depth, nil)
 	sb.scan(o.Goal, depth, nil)
 	for _, a := range extraAsserts {
@@ -238,6 +300,9 @@ func (o *Obligation) smt(w *World, extraAsserts []*Term, getValues []*Term, weak
 	}
 	for _, k := range sortedKeys(sb.unint) {
 		b.WriteString(sb.unint[k] + "\n")
+	}
+	if ufmul {
+		b.WriteString("(declare-fun umul_real (Real Real) Real)\n(declare-fun umul_int (Int Int) Int)\n")
 	}
 	// spec functions: declare all first (recursive: declare-fun), then define non-rec in dependency order
 	// simple approach: recursive ones declared up front; non-rec emitted in reverse discovery order (deps discovered later)
@@ -272,7 +337,7 @@ func (o *Obligation) smt(w *World, extraAsserts []*Term, getValues []*Term, weak
 		for _, p := range d.Params {
 			ps = append(ps, fmt.Sprintf("(%s %s)", p.Op, p.S))
 		}
-		fmt.Fprintf(&b, "(define-fun %s (%s) %s %s)\n", name, strings.Join(ps, " "), d.Ret, d.Body)
+		fmt.Fprintf(&b, "(define-fun %s (%s) %s %s)\n", name, strings.Join(ps, " "), d.Ret, sb.pr(d.Body))
 	}
 	for _, name := range sb.specOrder {
 		emit(name)
@@ -289,18 +354,18 @@ func (o *Obligation) smt(w *World, extraAsserts []*Term, getValues []*Term, weak
 			}
 			fmt.Fprintf(&b, "(declare-const %s %s)\n", d.Name, d.S)
 		} else {
-			fmt.Fprintf(&b, "(define-fun %s () %s %s)\n", d.Name, d.S, d.Def)
+			fmt.Fprintf(&b, "(define-fun %s () %s %s)\n", d.Name, d.S, sb.pr(d.Def))
 		}
 	}
 	for _, inst := range sb.recInst {
-		fmt.Fprintf(&b, "(assert %s)\n", inst)
+		fmt.Fprintf(&b, "(assert %s)\n", sb.pr(inst))
 	}
 	for _, a := range extraAsserts {
-		fmt.Fprintf(&b, "(assert %s)\n", a)
+		fmt.Fprintf(&b, "(assert %s)\n", sb.pr(a))
 	}
-	fmt.Fprintf(&b, "(assert %s)\n", o.Guard)
+	fmt.Fprintf(&b, "(assert %s)\n", sb.pr(o.Guard))
 	if !o.Cover {
-		fmt.Fprintf(&b, "(assert (not %s))\n", o.Goal)
+		fmt.Fprintf(&b, "(assert (not %s))\n", sb.pr(o.Goal))
 	}
 	b.WriteString("(check-sat)\n")
 	if len(getValues) > 0 {
@@ -438,6 +503,10 @@ type OblResult struct {
 func solveAll(w *World, obls []*Obligation, dir string, timeoutMs int, par int) []*OblResult {
 	os.MkdirAll(dir, 0o755)
 	results := make([]*OblResult, len(obls))
+	// SMT text generation touches shared registries: do it sequentially, run solvers in parallel
+	for _, o := range obls {
+		o.prepare(w)
+	}
 	var wg sync.WaitGroup
 	sem := make(chan struct{}, par)
 	for i, o := range obls {
@@ -461,6 +530,25 @@ func sanitizeFile(s string) string {
 	return strings.NewReplacer("/", "_", "#", "__", "*", "p", " ", "_").Replace(s)
 }
 
+func (o *Obligation) prepare(w *World) {
+	if o.Static != "" || (!o.Cover && o.Goal.isTrue()) || o.fullSMT != "" {
+		return
+	}
+	var gv []*Term
+	if !o.Cover {
+		for _, in := range o.Inputs {
+			gv = append(gv, flattenForModel(in.Term)...)
+		}
+	}
+	o.fullSMT = o.smt(w, nil, gv, false)
+	if !o.Cover && (strings.Contains(o.fullSMT, "(is_int_dom ") || strings.Contains(o.fullSMT, "(i2r ")) {
+		o.weakSMT = o.smt(w, nil, nil, true)
+	}
+	if !o.Cover && strings.Contains(o.fullSMT, "(* ") {
+		o.ufSMT = o.smtMode(w, nil, nil, true, true)
+	}
+}
+
 func solveOne(w *World, o *Obligation, dir string, timeoutMs int) *OblResult {
 	res := &OblResult{O: o}
 	if o.Static != "" {
@@ -473,22 +561,28 @@ func solveOne(w *World, o *Obligation, dir string, timeoutMs int) *OblResult {
 		res.R = SolveResult{Status: "unsat", Solver: "govc-trivial"}
 		return res
 	}
-	var gv []*Term
-	if !o.Cover {
-		for _, in := range o.Inputs {
-			gv = append(gv, flattenForModel(in.Term)...)
-		}
-	}
 	file := oblFile(dir, o)
-	full := o.smt(w, nil, gv, false)
+	full := o.fullSMT
 	if err := os.WriteFile(file, []byte(full), 0o644); err != nil {
 		res.R = SolveResult{Status: "error", Output: err.Error()}
 		return res
 	}
-	if !o.Cover && (strings.Contains(full, "(is_int_dom ") || strings.Contains(full, "(i2r ")) {
+	if o.ufSMT != "" {
+		// sound abstraction: products as an uninterpreted function, integrality dropped (congruence-only proofs)
+		ufile := strings.TrimSuffix(file, ".smt2") + ".ufmul.smt2"
+		os.WriteFile(ufile, []byte(o.ufSMT), 0o644)
+		r := runSolver(context.Background(), solvers[0], ufile, min(timeoutMs, 3000))
+		if r.Status == "unsat" {
+			r.Solver += "(uf-products)"
+			res.R = r
+			res.OK = true
+			return res
+		}
+	}
+	if o.weakSMT != "" {
 		// sound weakening: drop the integrality hypotheses (prove it for all reals in range); pure NRA is often faster
 		wfile := strings.TrimSuffix(file, ".smt2") + ".noint.smt2"
-		os.WriteFile(wfile, []byte(o.smt(w, nil, nil, true)), 0o644)
+		os.WriteFile(wfile, []byte(o.weakSMT), 0o644)
 		r := runSolver(context.Background(), solvers[0], wfile, min(timeoutMs, 4000))
 		if r.Status == "unsat" {
 			r.Solver += "(no-integrality)"
